@@ -1,4 +1,5 @@
 import GoatSpec.Proofs.Idem
+import GoatSpec.SkelSpec
 /-! # C06 — goat clean removes every artefact and restores the original program
     (text level: the five regexp passes of `CleanExecutor.prepareContent`).
 
@@ -125,5 +126,43 @@ theorem unterminated_start_eats_user_code :
 example : ∀ it ∈ [Item.user ['x'], Item.user [], genBlockItem, Item.ins Extracted.trackInsertComment,
     Item.block .delete Extracted.trackDeleteComment [['y']] Extracted.trackEndComment], it.wf = true := by
   decide
+
+/-! ## the order of the passes, read off the source
+
+`vh skeleton` translates /repo's Go source on every run; `refOrder f` lists the package-level
+variables the body of `f` mentions, in source order. -/
+section skeleton
+open GoatSpec.SkelSpec
+
+/-- the marker kinds in the order `cleanLines` applies their passes -/
+def cleanPassOrder : List Mk := [.delete, .insert, .generate, .main, .user]
+
+/-- the regular expression (package-level variable of pkg/config) that removes blocks of a kind -/
+def passVar : Mk → String
+  | .delete => "pkg/config.TrackDeleteEndRegexp"
+  | .insert => "pkg/config.TrackInsertRegexp"
+  | .generate => "pkg/config.TrackGenerateEndRegexp"
+  | .main => "pkg/config.TrackMainEntryEndRegexp"
+  | .user => "pkg/config.TrackUserEndRegexp"
+  | .endm => "-"
+
+/-- the model's `cleanLines` is the composition of the five passes in `cleanPassOrder` -/
+theorem cleanLines_is_pass_order (l : List Line) :
+    (cleanLines l).2 = cleanPassOrder.foldl (fun acc k => (pass k [] acc).2) l := rfl
+
+/-- **`CleanExecutor.prepareContent` uses the five regular expressions in exactly the order the
+    model composes its passes** (delete, insert, generate, main, user) and mentions no other
+    package-level variable — re-checked against the current source on every run -/
+theorem clean_pass_order_in_source :
+    refOrder "pkg/goat.CleanExecutor.prepareContent" = cleanPassOrder.map passVar := by decide +kernel
+
+/-- after the passes the function calls `DeleteImport` (through the printer configuration) and
+    nothing else of the project -/
+theorem clean_calls_in_source : callOrder "pkg/goat.CleanExecutor.prepareContent" =
+    ["pkg/utils.ReplaceWithRegexp", "pkg/utils.ReplaceWithRegexp", "pkg/utils.ReplaceWithRegexp",
+     "pkg/utils.ReplaceWithRegexp", "pkg/utils.ReplaceWithRegexp", "pkg/config.Config.PrinterConfig",
+     "pkg/utils.DeleteImport"] := by decide +kernel
+
+end skeleton
 
 end GoatSpec.C06
